@@ -494,8 +494,34 @@ static void c17_fd_storm(uint64_t n) {
   clear_current();
 }
 
+// ================================================================= C17: readers / writers constructed from a pointer to a multi-byte type
+// The documented constructor is (pointer, size in bytes). A buffer declared as uint16_t/uint32_t/uint64_t/double[] and passed with its sizeof must give
+// exactly that many bytes - not that many elements.
+template <typename E> static void c17_typed_buffer(const char* ename) {
+  const size_t N = 4, bytes = N * sizeof(E);
+  std::unique_ptr<E[]> mem(new E[N]); uint8_t* raw = reinterpret_cast<uint8_t*>(mem.get()); for (size_t i = 0; i < bytes; i++) raw[i] = (uint8_t)(0x11 * (i + 1));
+  std::string cd = case_desc("typed-buffer", -1, ename);
+  set_current("%s", cd.c_str());
+  auto bad = [&](const char* who, const std::string& what) { rep().violation(fmt("C17:typed-pointer-constructor:%s", who), fmt("%s constructed from (%s*, %zu bytes): %s", who, ename, bytes, what.c_str()), cd); };
+  { nop::BufferReader r{mem.get(), bytes}; rep().count("c17_typed_pointer_constructions");
+    if (r.remaining() != bytes) bad("BufferReader", fmt("remaining() = %zu", r.remaining()));
+    else { if (r.Ensure(bytes + 1)) bad("BufferReader", "Ensure(size + 1) succeeded"); Bytes got(bytes); auto st = r.Read(got.data(), got.data() + bytes); if (!st || memcmp(got.data(), raw, bytes) != 0) bad("BufferReader", "did not deliver the buffer's bytes"); uint8_t x; if (r.Read(&x)) bad("BufferReader", "delivered a byte beyond the buffer"); } }
+  { nop::PedanticBufferReader r{mem.get(), bytes}; rep().count("c17_typed_pointer_constructions");
+    if (r.remaining() != bytes) bad("PedanticBufferReader", fmt("remaining() = %zu", r.remaining()));
+    else { if (r.Ensure(bytes + 1)) bad("PedanticBufferReader", "Ensure(size + 1) succeeded"); if (!r.Skip(bytes)) bad("PedanticBufferReader", "Skip(size) failed"); uint8_t x; if (r.Read(&x)) bad("PedanticBufferReader", "delivered a byte beyond the buffer"); } }
+  { nop::BufferWriter w{mem.get(), bytes}; rep().count("c17_typed_pointer_constructions");
+    if (w.capacity() != bytes) bad("BufferWriter", fmt("capacity() = %zu", w.capacity())); else if (w.Prepare(bytes + 1)) bad("BufferWriter", "Prepare(size + 1) succeeded"); }
+  { nop::PedanticBufferWriter w{mem.get(), bytes}; rep().count("c17_typed_pointer_constructions");
+    if (w.capacity() != bytes) bad("PedanticBufferWriter", fmt("capacity() = %zu", w.capacity())); else { if (w.Prepare(bytes + 1)) bad("PedanticBufferWriter", "Prepare(size + 1) succeeded"); if (!w.Skip(bytes, 0x5a)) bad("PedanticBufferWriter", "Skip(size) failed"); if (w.Write((uint8_t)1)) bad("PedanticBufferWriter", "accepted a byte beyond the buffer"); } }
+  { nop::ConstexprBufferWriter w{raw, bytes}; rep().count("c17_typed_pointer_constructions");
+    if (w.capacity() != bytes) bad("ConstexprBufferWriter", fmt("capacity() = %zu", w.capacity())); else if (w.Prepare(bytes + 1)) bad("ConstexprBufferWriter", "Prepare(size + 1) succeeded"); }
+  rep().note(hash_str(ename) ^ 0x7e, true);
+  clear_current();
+}
+
 static void run_c17() {
   bool th = args().thorough();
+  if (mine(3) && (args().only_type.empty() || args().only_type == "typed-buffer")) { c17_typed_buffer<uint8_t>("uint8_t"); c17_typed_buffer<char>("char"); c17_typed_buffer<uint16_t>("uint16_t"); c17_typed_buffer<uint32_t>("uint32_t"); c17_typed_buffer<int64_t>("int64_t"); c17_typed_buffer<double>("double"); }
   if (args().only_type.empty() || args().only_type == "fd-storm") for (uint64_t n = 0; n < (th ? 4000u : 240u); n++) { if (args().only_case >= 0 ? (uint64_t)args().only_case != n : !mine(n)) continue; c17_fd_storm(n); }
   auto ral = alphabet(false, true, true, true);
   auto ral_noskip = alphabet(false, true, false, true);
